@@ -11,6 +11,7 @@
 -/
 import PCV.Model.Poly
 import PCV.Model.Merkle
+import PCV.Model.CalcT
 namespace PCV
 namespace LinCode
 open Merkle
@@ -129,11 +130,17 @@ def coeffMat (dims : Nat → Nat × Nat) (coeffs : List F) : Mat F :=
   let nm := dims cs.length
   Mat.ofFlat nm.1 nm.2 (resize (nm.1 * nm.2) cs)
 
-/-- the coefficient vector fits the matrix of `compute_dimensions` (always, for Ligero's shape law; for
-Brakedown's fixed shape exactly when the polynomial is not larger than the key was made for) -/
+/-- the coefficient vector fits the matrix of `compute_dimensions`: with `(n, m) = dims len` it has at
+most `n·m` entries (fix D21) and `m = ceil_div(len, n)` (fix D25: the assertion of
+`BrakedownPCParams::compute_dimensions`, whose shape `(n, m)` is a constant of the parameters — a
+polynomial of another size than they were made for is refused instead of being zero-padded into a
+different polynomial).  Always true for Ligero's shape law, where `m` is `ceil_div(len, n)` by
+definition (`Model/Dimensions.lean`, `Proofs/LinCodeProto.lean: fitsDims_of_ceilDiv`). -/
 def fitsDims (dims : Nat → Nat × Nat) (coeffs : List F) : Bool :=
   decide ((coeffsOrZero coeffs).length
-    ≤ (dims (coeffsOrZero coeffs).length).1 * (dims (coeffsOrZero coeffs).length).2)
+      ≤ (dims (coeffsOrZero coeffs).length).1 * (dims (coeffsOrZero coeffs).length).2 ∧
+    ceilDiv (coeffsOrZero coeffs).length (dims (coeffsOrZero coeffs).length).1
+      = (dims (coeffsOrZero coeffs).length).2)
 
 /-- `compute_matrices` after its size assertion: arrange, encode row by row -/
 def computeMatricesCore (pp : Params F D) (coeffs : List F) : Except Err (Mat F × Mat F) :=
@@ -146,7 +153,8 @@ def computeMatricesCore (pp : Params F D) (coeffs : List F) : Except Err (Mat F 
     | .ok ext => .ok (mat, ext)
 
 /-- `LinearEncode::compute_matrices`: `(mat, ext_mat)`; `assert!(coeffs.len() <= n_rows * n_cols)`
-(fix D21: `resize` would otherwise drop the surplus coefficients silently) -/
+(fix D21: `resize` would otherwise drop the surplus coefficients silently) and the assertion inside
+`compute_dimensions` (fix D25: `ceil_div(len, n) == m` for Brakedown's fixed shape) -/
 def computeMatrices (pp : Params F D) (coeffs : List F) : Except Err (Mat F × Mat F) :=
   if fitsDims pp.dims coeffs = false then .error .abort else computeMatricesCore pp coeffs
 
@@ -335,7 +343,9 @@ def encodeWf (enc : List F → Except Err (List F)) (r : List F) (wf : Option (L
 /-- Everything one iteration of the loop of `LinearCodePCS::check` does before it looks at the
 claimed value, in the order of the code: length of `v`, presence / length of the well-formedness
 vector, leaf positions and Merkle paths, `E(v)` and its length against the announced `n_ext_cols`,
-`tensor`, `E(wf)`, the inner-product tests on the opened columns.  Returns the vector `a` of `tensor`. -/
+`tensor` and the lengths of its two vectors against the announced shape (fix D23: a point with the
+wrong number of coordinates is refused — `inner_product` would truncate the longer operand), `E(wf)`,
+the inner-product tests on the opened columns.  Returns the vector `a` of `tensor`. -/
 def checkPre (pp : Params F D) (point : Point F) (c : Comm D) (π : Proof F D) (o : Oracle F) :
     Except Err (List F) :=
   if π.opening.v.length ≠ c.nCols then .error .invalidCommitment else
@@ -352,6 +362,7 @@ def checkPre (pp : Params F D) (point : Point F) (c : Comm D) (π : Proof F D) (
         match tensor point c.nCols c.nRows with
         | .error e => .error e
         | .ok ab =>
+          if ab.1.length ≠ c.nCols ∨ ab.2.length ≠ c.nRows then .error .invalidCommitment else
           match encodeWf pp.enc o.r wf with
           | .error e => .error e
           | .ok rw =>
